@@ -729,3 +729,8 @@ m("x9-slice-exact-single-read", "C03", VM,
 # wrong twin of refactors/RF-mark-dirty-guarded-fast-path: the in-page offset is not reduced, so the subtraction can underflow
 m("x9-fast-path-sub-unreduced", "C07", AB, _MD,
   "        if len != 0 && len <= self.page_size.get() - offset {\n            return self.set_bit(offset / self.page_size);\n        }\n" + _MD, "A4.unreviewed")
+# the corrected unit (count * element_size()) is accepted by R5.1.extent; a product with anything but the element size is not
+m("x9-array-copy-elements-mark-times-two", "C05", VM,
+  "            let count = min(self.len() * self.element_size(), slice.size);\n            // Access both sides through pointer guards, so that memory which is mapped on\n            // demand is mapped for the duration of the copy.\n            let src = self.ptr_guard();\n            let dst = slice.ptr_guard_mut();\n            copy(src.as_ptr(), dst.as_ptr(), count);\n            slice.bitmap.mark_dirty(0, count);",
+  "            if self.element_size() == 0 {\n                return;\n            }\n            let count = min(self.len(), slice.size / self.element_size());\n            let src = self.ptr_guard();\n            let dst = slice.ptr_guard_mut();\n            copy(src.as_ptr().cast::<Packed<T>>(), dst.as_ptr().cast::<Packed<T>>(), count);\n            slice.bitmap.mark_dirty(0, count * 2);",
+  "R5.1.extent")
